@@ -296,6 +296,29 @@ def run(ctx):
             if not (k1 == k2 == k3):
                 ctx.report('property', f'key of a dataset {k1[:12]}.., of its copy {k2[:12]}.., of the dataset again {k3[:12]}..: '
                            f'equal geometry, different keys', dict(case, kind='object_state', edit='copy'))
+            # (2a) asking for the key, or for anything else, does not change the key: the same object asked twice, then after its
+            # polygons and (meshes) neighbour tables were built, gives the same key, and its variables' encodings are as before
+            obj = ds.copy(deep=True)
+            for v_ in obj.variables:
+                obj[v_].encoding = dict(ds[v_].encoding)
+            enc_before = {str(v_): repr(sorted((str(k_), repr(x_)) for k_, x_ in obj[v_].encoding.items())) for v_ in obj.variables}
+            ka = attempt(key_of, obj)
+            kb = attempt(key_of, obj)
+            with warnings.catch_warnings():
+                warnings.simplefilter('ignore')
+                attempt(lambda: (obj.ems.polygons, getattr(getattr(obj.ems, 'topology', None), 'face_face_array', None), obj.ems.strtree))
+            kc = attempt(key_of, obj)
+            enc_after = {str(v_): repr(sorted((str(k_), repr(x_)) for k_, x_ in obj[v_].encoding.items())) for v_ in obj.variables}
+            ctx.case((label, from_file, 'asked twice'), True)
+            ctx.count('key asked twice / after the geometry was used')
+            hcase = dict(case, kind='same object asked again')
+            if ka[0] == 'ok' and (kb != ka):
+                ctx.report('property', 'the same Dataset object asked twice for its key gives two keys', hcase)
+            elif enc_after != enc_before:
+                changed = [v_ for v_ in enc_before if enc_before[v_] != enc_after.get(v_)]
+                ctx.report('property', f'asking for the key changed the encoding of {changed}', hcase)
+            elif ka[0] == 'ok' and kc != ka and not obj.identical(ds):
+                ctx.report('property', 'building the polygons / neighbour tables of the dataset changed its geometry variables and its key', hcase)
             # (2b) the key is a function of the dataset as it is now: the same Dataset object asked again after one of its
             # geometry variables was edited in place (a coordinate corrected, an attribute added) answers for the new content, and
             # for the old content again once the edit is undone
